@@ -482,6 +482,26 @@ func (ex *Exec) specCall(st *State, e *ast.CallExpr) []*Val {
 				}
 			}
 			return one(&Val{T: tBool, Term: and(cs...)})
+		case "prev":
+			// prev(e): e evaluated just before the statement this `after` hook follows
+			if ex.prevState == nil {
+				ex.specFail("prev(...) is only meaningful in an after-hook")
+			}
+			view := st.clone()
+			view.heaps = ex.prevState.heaps
+			view.vars = map[types.Object]*Val{}
+			for k, v := range st.vars {
+				view.vars[k] = v
+			}
+			for k, v := range ex.prevState.vars {
+				view.vars[k] = v
+			}
+			view.pc = nil
+			v := ex.expr(view, e.Args[0])
+			for _, p := range view.pc {
+				st.assume(p)
+			}
+			return one(v)
 		case "pre":
 			// pre("2", e): e evaluated in the state just before loop 2 was entered
 			path := strings.Trim(e.Args[0].(*ast.BasicLit).Value, "\"")
@@ -900,9 +920,18 @@ func (ex *Exec) ensureSpecFn(sf *SpecFunc) *specFnInfo {
 	for _, p := range sf.Params {
 		pt := ex.parseSpecType(p.Type, u)
 		leaf := mk("p$"+p.Name, ex.sortOf(pt))
-		st.bound[p.Name] = &Val{T: pt, Term: leaf}
+		v := &Val{T: pt, Term: leaf}
 		pnames = append(pnames, leaf.Op)
 		psorts = append(psorts, leaf.S)
+		if sl, ok := pt.Underlying().(*types.Slice); ok {
+			// the backing array of a slice parameter is passed explicitly, so
+			// that the value depends on that array only, not on the whole memory
+			arr := mk("p$"+p.Name+"$arr", arrSort(SInt, ex.sortOf(sl.Elem())))
+			v.Arr = arr
+			pnames = append(pnames, arr.Op)
+			psorts = append(psorts, arr.S)
+		}
+		st.bound[p.Name] = v
 	}
 	rt := ex.parseSpecType(sf.Res, u)
 	saveNoLoc := ex.specNoLocals
@@ -924,7 +953,19 @@ func (ex *Exec) ensureSpecFn(sf *SpecFunc) *specFnInfo {
 		pnames = append(pnames, st.specDef[k].Op)
 		psorts = append(psorts, st.specDef[k].S)
 	}
-	ex.D.define("spec$"+sf.Name, pnames, psorts, ex.sortOf(rt), v.Term)
+	// declared, with its definition as an axiom triggered on applications:
+	// the function stays a term (usable in triggers) and is unfolded on demand
+	name := "spec$" + sf.Name
+	ex.D.declare(name, psorts, ex.sortOf(rt))
+	var bound []*Term
+	sub := map[string]*Term{}
+	for i, pn := range pnames {
+		b := mk(pn+"?", psorts[i])
+		bound = append(bound, b)
+		sub[pn] = b
+	}
+	app := mk(name, ex.sortOf(rt), bound...)
+	ex.D.axiom("def "+sf.Name, forall(bound, eq(app, subst(v.Term, sub)), []*Term{app}))
 	ex.specFnInfos[sf.Name] = info
 	return info
 }
@@ -947,8 +988,15 @@ func (ex *Exec) applySpecFn(st *State, sf *SpecFunc, args []*Val) *Val {
 	var ts []*Term
 	for i, a := range args {
 		pt := ex.parseSpecType(sf.Params[i].Type, u)
+		arr := a.Arr
 		a = ex.coerce(st, ex.materialize(a, pt), pt)
 		ts = append(ts, a.Term)
+		if sl, ok := pt.Underlying().(*types.Slice); ok {
+			if arr == nil {
+				arr = sel(ex.mem(st, sl.Elem()), ex.sRef(a.Term))
+			}
+			ts = append(ts, arr)
+		}
 	}
 	for _, h := range info.heapParams {
 		srt := ex.heapSorts[h]
